@@ -1,6 +1,7 @@
 package extractor
 
 import (
+	"fmt"
 	"strings"
 
 	"github.com/internetarchive/Zeno/pkg/models"
@@ -21,6 +22,14 @@ func IsPDF(URL *models.URL) bool {
 
 func PDF(URL *models.URL) (outlinks []*models.URL, err error) {
 	defer URL.RewindBody()
+
+	// The PDF library panics on some malformed files (e.g. a cross-reference stream entry for object 0):
+	// a bad document must only cost this URL its outlinks, not take the crawler down
+	defer func() {
+		if r := recover(); r != nil {
+			outlinks, err = nil, fmt.Errorf("pdf decoder panicked: %v", r)
+		}
+	}()
 
 	annots, err := pdfapi.Annotations(URL.GetBody(), nil, nil)
 	if err != nil {
